@@ -189,7 +189,12 @@ class Dataset(Scenario):
         self._snap(b)
         ds = aa.Imaging(data=aa.Array2D.no_mask(values=b["data"], pixel_scales=0.5), noise_map=aa.Array2D.no_mask(values=b["noise"], pixel_scales=0.5),
                         psf=aa.Kernel2D.no_mask(values=b["psf"], pixel_scales=0.5))
-        return [("Imaging", ds)], b
+        # the same dataset held in natively stored arrays (every query must be as pure on it as on the slim-stored one)
+        m0 = aa.Mask2D.all_false(shape_native=(11, 11), pixel_scales=0.5)
+        dsn = aa.Imaging(data=aa.Array2D(values=b["data"].copy(), mask=m0, store_native=True),
+                         noise_map=aa.Array2D(values=b["noise"].copy(), mask=m0, store_native=True),
+                         psf=aa.Kernel2D.no_mask(values=b["psf"], pixel_scales=0.5))
+        return [("Imaging", ds), ("Imaging", dsn)], b
 
     def table(self):
         import autoarray as aa
@@ -216,6 +221,7 @@ class Dataset(Scenario):
                          "ops": {"apply_mask": (lambda o: o.apply_mask(mask_for(o)), "same", False),
                                  "trimmed": (lambda o: o.trimmed_after_convolution_from(kernel_shape=(3, 3)), "same", True),
                                  "apply_over_sampling": (lambda o: o.apply_over_sampling(aa.OverSamplingDataset(uniform=aa.OverSamplingUniform(sub_size=2))), "same", False),
+                                 "apply_noise_scaling": (lambda o: o.apply_noise_scaling(mask=mask_for(o)), "same", False),
                                  "copy_module": (lambda o: copy.copy(o), "same", True)}}}
         t["Imaging"]["cached"] = set()  # the cached names (grids, convolver, w_tilde) are read through sub-quantities: tracked as drift only
         t["Imaging"]["cached_groups"] = {"grids_uniform": "grids", "grids_pixelization": "grids", "grids_blurring": "grids", "grid": "grids",
@@ -611,6 +617,55 @@ def probes(seed):
             rec("Determinism", f"preprocess.{fname}", "seeded-simulation-independent-of-global-rng", len(set(outs)) == 1)
     except Exception as e:
         rec("Determinism", "seeded noise helpers", "no-exception-in-determinism-probe", False, note=f"{type(e).__name__}: {str(e)[:80]}")
+    # option objects handed to a derivation are caller-owned inputs; shared signature defaults are shared state
+    try:
+        def osd_state(o):
+            return tuple((k, None if getattr(o, k) is None else (type(getattr(o, k)).__name__, int(getattr(getattr(o, k), "sub_size", -1))
+                                                                   if np.ndim(getattr(getattr(o, k), "sub_size", -1)) == 0 else "array"))
+                         for k in ("uniform", "non_uniform", "pixelization"))
+
+        def mk_ds(u, px):
+            return aa.Imaging(data=aa.Array2D.no_mask(values=np.arange(25.0).reshape(5, 5) + 1.0, pixel_scales=0.5),
+                              noise_map=aa.Array2D.no_mask(values=np.ones((5, 5)), pixel_scales=0.5),
+                              over_sampling=aa.OverSamplingDataset(uniform=aa.OverSamplingUniform(sub_size=u), pixelization=aa.OverSamplingUniform(sub_size=px)))
+
+        ds_a, ds_b = mk_ds(2, 4), mk_ds(8, 1)
+        for label, request in (("uniform only", lambda: aa.OverSamplingDataset(uniform=aa.OverSamplingUniform(sub_size=3))),
+                               ("pixelization only", lambda: aa.OverSamplingDataset(pixelization=aa.OverSamplingUniform(sub_size=3))),
+                               ("nothing", lambda: aa.OverSamplingDataset())):
+            req = request()
+            before = osd_state(req)
+            want_b = tuple((k, v if v is not None else osd_state(ds_b.over_sampling)[i][1]) for i, (k, v) in enumerate(before))
+            ds_a.apply_over_sampling(over_sampling=req)
+            unchanged = osd_state(req) == before
+            got_b = osd_state(ds_b.apply_over_sampling(over_sampling=req).over_sampling)
+            rec("Construct", f"Imaging.apply_over_sampling(request with {label}) applied to two datasets",
+                "constructors-leave-caller-owned-inputs-unchanged", unchanged)
+            rec("Determinism", f"Imaging.apply_over_sampling(request with {label}): second dataset keeps its own unspecified schemes",
+                "equal-inputs-give-identical-results", got_b == want_b)
+        ds_a.apply_over_sampling()
+        rec("Determinism", "Imaging.apply_over_sampling() with the signature default, on a second dataset after a first",
+            "equal-inputs-give-identical-results", osd_state(ds_b.apply_over_sampling().over_sampling) == osd_state(ds_b.over_sampling))
+        rec("Determinism", "OverSamplingDataset() default of Imaging.apply_over_sampling stays empty", "equal-inputs-give-identical-results",
+            osd_state(aa.Imaging.apply_over_sampling.__defaults__[0]) == (("uniform", None), ("non_uniform", None), ("pixelization", None)))
+    except Exception as e:
+        rec("Determinism", "apply_over_sampling option objects", "no-exception-in-determinism-probe", False, note=f"{type(e).__name__}: {str(e)[:80]}")
+    # deriving a noise-scaled dataset leaves the source dataset unchanged, whatever the storage mode of its arrays
+    try:
+        for sn in (False, True):
+            m0 = aa.Mask2D.all_false(shape_native=(4, 5), pixel_scales=0.5)
+            src = aa.Imaging(data=aa.Array2D(values=np.arange(20.0).reshape(4, 5) + 1.0, mask=m0, store_native=sn),
+                             noise_map=aa.Array2D(values=np.ones((4, 5)) * 0.5, mask=m0, store_native=sn))
+            smk = np.ones((4, 5), dtype=bool)
+            smk[1:3, 1:4] = False
+            want = (canon(src.noise_map.native.array), canon(src.data.native.array), canon(src.signal_to_noise_map.native.array))
+            for kw in ({}, {"signal_to_noise_value": 2.0}, {"should_zero_data": False}):
+                src.apply_noise_scaling(mask=aa.Mask2D(mask=smk.copy(), pixel_scales=0.5), **kw)
+                got = (canon(src.noise_map.native.array), canon(src.data.native.array), canon(src.signal_to_noise_map.native.array))
+                rec("Determinism", f"Imaging.apply_noise_scaling({kw}) leaves its source dataset unchanged (store_native={sn})",
+                    "equal-inputs-give-identical-results", got == want)
+    except Exception as e:
+        rec("Determinism", "apply_noise_scaling source dataset", "no-exception-in-determinism-probe", False, note=f"{type(e).__name__}: {str(e)[:80]}")
     # factories return independent objects: scribbling on what a first call returned (the caller's own object) must not
     # change what an identical second call returns
     fmask = aa.Mask2D(mask=mk.copy(), pixel_scales=(1.0, 0.5), origin=(0.5, -1.0))
